@@ -30,13 +30,18 @@ inductive SOp where
   | addFilesAs (indir to : Bytes)
   | addFileData (path data : Bytes)
 
+/-- `StaticFiles::path_for`: a relative path is taken relative to the directory of the crate
+(`CARGO_MANIFEST_DIR`); `compile_templates` uses its argument as it is -/
+def pathFor (base p : Bytes) : Bytes := if p.head? = some 47 then p else joinPath base p
+
 /-- what `read_dir` / `File::open` hand to a call -/
-def SOp.resolve (t : InFS) : SOp → Op
+def SOp.resolve (base : Bytes) (t : InFS) : SOp → Op
   | .compileTemplates d =>
     match t d with
     | some (.dir es) => .compileTemplates d es
     | _ => .failed false d
   | .addFile p =>
+    let p := pathFor base p
     match nameAndExt (baseName p) with
     | none => .addFile p []           -- skipped without opening anything
     | some _ =>
@@ -44,28 +49,30 @@ def SOp.resolve (t : InFS) : SOp → Op
       | some (.file c) => .addFile p c
       | _ => .failed true p
   | .addFiles d =>
+    let d := pathFor base d
     match t d with
     | some (.dir es) => .addFiles d es
     | _ => .failed true d
-  | .addFileAs p u => .addFileAs p u  -- the file is opened by rustc (`include_bytes!`), not by the run
+  | .addFileAs p u => .addFileAs (pathFor base p) u  -- the file is opened by rustc (`include_bytes!`), not by the run
   | .addFilesAs d to =>
+    let d := pathFor base d
     match t d with
     | some (.dir es) => .addFilesAs d to es
     | _ => .failed true d
-  | .addFileData p data => .addFileData p data
+  | .addFileData p data => .addFileData (pathFor base p) data
 
 /-- the path whose state a call depends on (`none`: the call looks at nothing) -/
-def SOp.root : SOp → Option Bytes
+def SOp.root (base : Bytes) : SOp → Option Bytes
   | .compileTemplates d => some d
-  | .addFile p => match nameAndExt (baseName p) with | some _ => some p | none => none
-  | .addFiles d => some d
+  | .addFile p => match nameAndExt (baseName (pathFor base p)) with | some _ => some (pathFor base p) | none => none
+  | .addFiles d => some (pathFor base d)
   | .addFileAs _ _ => none
-  | .addFilesAs d _ => some d
+  | .addFilesAs d _ => some (pathFor base d)
   | .addFileData _ _ => none
 
 /-- one complete run of a build script on an input tree and a prior OUT_DIR state -/
-def runScript (uniEsc uniAlnum : Nat → Bool) (feat : MimeFeature) (fs : FS) (outdir utilsRs : Bytes)
+def runScript (uniEsc uniAlnum : Nat → Bool) (feat : MimeFeature) (fs : FS) (outdir utilsRs base : Bytes)
     (t : InFS) (script : List SOp) : Out :=
-  build uniEsc uniAlnum feat fs outdir utilsRs (script.map (SOp.resolve t))
+  build uniEsc uniAlnum feat fs outdir utilsRs (script.map (SOp.resolve base t))
 
 end Ructe
